@@ -36,7 +36,7 @@ SHARD_TIMEOUT = {'quick': 900, 'thorough': 3000}
 
 CONFIGS = [('xml', None), ('xml', 'soft'), ('xml', 'lxml'), ('soap11', None), ('soap11', 'soft'), ('soap11', 'lxml'), ('soap12', 'soft'),
            ('json', None), ('json', 'soft'), ('yaml', None), ('yaml', 'soft'), ('msgpack', None), ('msgpack', 'soft'), ('msgpackrpc', 'soft'),
-           ('httprpc', None), ('httprpc', 'soft')]
+           ('httprpc', None), ('httprpc', 'soft'), ('jsonrpc', None), ('jsonrpc', 'soft')]
 
 HOSTILE = ['\x00', 'a\x08b', '\ud800', '\ufffe', ']]>', '<x>&', 'P99999999999Y', 'PT999999999999999999999H', '-P1Y999999999999999D', 'zz', 'abc',
            '9' * 5000, '-' + '9' * 5000, '1e5000', '1E-5000', '0.' + '0' * 5000 + '1', ' 1', '1 ', '+1', '0x', '1_0', '٣', 'Infinity', '-INF', 'nan',
@@ -409,7 +409,7 @@ def process(R, T, data, driver, cls, repro, path=None, qs=None):
                 env, inp = drive.make_environ('GET', path, qs, b'', None)
             else:
                 ctype = {'xml': 'text/xml', 'soap11': 'text/xml; charset=utf-8', 'soap12': 'application/soap+xml; charset=utf-8',
-                         'json': 'application/json', 'yaml': 'text/yaml'}.get(kind, 'application/octet-stream')
+                         'json': 'application/json', 'jsonrpc': 'application/json', 'yaml': 'text/yaml'}.get(kind, 'application/octet-stream')
                 if repro.get('charset'):
                     ctype = ctype.split(';')[0] + '; charset=' + repro['charset']
                 if repro.get('ctype'):
@@ -789,6 +789,10 @@ def mime_mutants(rng, data, tier):
                          b'<e:Envelope xmlns:e="http://schemas.xmlsoap.org/soap/envelope/"><e:Body><e:Fault/></e:Body></e:Envelope>') + att + end)
     V('nested', root + part([b'Content-Type: multipart/mixed; boundary="inner"'], b'--inner\r\n\r\nx\r\n--inner--') + end)
     V('charset_unknown', root + att + end, CT + '; charset=no-such-charset')
+    # names that Python knows as codecs but that are not character sets (bytes-to-bytes and text-to-text transforms), and ones that are
+    for cs in ('hex', 'base64', 'zlib', 'bz2', 'rot13', 'undefined', 'uu', 'quopri', 'idna', 'punycode', 'utf-16', 'utf-32', 'utf-7', 'cp037', 'unicode_escape',
+               'raw_unicode_escape', 'mbcs', 'oem', ''):
+        V('charset_' + (cs or 'empty'), root + att + end, CT + '; charset=' + cs)
     V('bad_headers', b'--' + B + b'\r\n\xff\xfe: \x00\r\n\r\n' + data + b'\r\n' + end)
     whole = root + att + end
     step = max(1, len(whole) // (40 if tier == 'quick' else 400))
@@ -964,8 +968,12 @@ class AnyTarget(object):
             members['ax'] = XmlAttribute(AnyXml)          # (has no valid schema: not with the lxml validator)
         AK = type('AK', (ComplexModel,), dict(members, __namespace__=ns))
 
+        Hd = type('Hd', (ComplexModel,), dict(tok=Unicode, n=Integer, __namespace__=ns))
+        Hd2 = type('Hd2', (ComplexModel,), dict(m=Integer(ge=0), __namespace__=ns))
+        hkw = dict(_in_header=(Hd, Hd2)) if kind == 'jsonrpc' else {}
+
         class AnySvc(Service):
-            @rpc(AK, AnyXml, AnyDict, _returns=Unicode)
+            @rpc(AK, AnyXml, AnyDict, _returns=Unicode, **hkw)
             def sink(ctx, k, x, d):
                 T.B.calls.append(('sink', ()))
                 return 'ok'
@@ -986,9 +994,12 @@ class AnyTarget(object):
             inp = HttpRpc(validator=validator)
         else:
             self.conf = refdict.Conf(kind, True, 'dict', False)
-            inp = c02.make_protocols(self.conf, validator)[0]
+            inp, outp_ = c02.make_protocols(self.conf, validator)
             self.codec = refdict.Codec({'types': [], 'services': [], 'tns': ns, 'uid': 9400}, self.conf)
-        outp = M.make_protocols(outkind or ('json' if kind == 'httprpc' else kind), None)[1]
+        if outkind or xmlish or kind == 'httprpc':
+            outp = M.make_protocols(outkind or ('json' if kind == 'httprpc' else kind), None)[1]
+        else:
+            outp = outp_
         app = Application([AnySvc], ns, name='AnyKinds', in_protocol=inp, out_protocol=outp)
         self.server = None if kind == 'httprpc' else ServerBase(app)
         self.wsgi = WsgiApplication(app)
@@ -1080,6 +1091,20 @@ def any_kinds(R, spec, rng):
                 R.count('any_kinds_value_inputs', n)
                 for i, (cls, m) in enumerate(dict_mutants(rng, T.codec, struct, 40 if tier == 'quick' else 300)):
                     process(R, T, m, drivers[i % len(drivers)], cls, repro)
+                if kind == 'jsonrpc':
+                    # the envelope of the JsonRpc flavour: version, header(s), body, fault
+                    import json as _json
+                    heads = [5, [5], 'x', [], {}, [{}], None, [None], {'tok': 't'}, [{'tok': 't'}], [{'tok': 't'}, {'m': 2}], [{'tok': 't'}, {'m': -2}], [None, {'m': 2}],
+                             [{'tok': 't'}, 5], [[1]], [{'tok': 't'}, {'m': 2}, {'z': 1}], {'tok': 5, 'n': 'x'}, [{'n': 'x'}], True, 1.5, [[]], [{'tok': ['a']}]]
+                    envs = [{'ver': 1, 'head': h, 'body': struct} for h in heads]
+                    envs += [{'ver': 1, 'fault': f} for f in (5, 'x', {}, [], None, {'faultcode': 'Client.X', 'faultstring': 's'}, {'faultcode': 5}, [1, 2, 3])]
+                    envs += [{'ver': 1, 'fault': {'faultcode': 'Client.X'}, 'body': struct}]
+                    envs += [{'ver': v, 'body': struct} for v in ('x', 2, 0, -1, None, [], {}, 1.5, True, '1')]
+                    envs += [{'body': struct}, {'ver': 1}, {'ver': 1, 'body': None}, {'ver': 1, 'body': 5}, {'ver': 1, 'body': [struct]}, {'ver': 1, 'body': {}},
+                             {'ver': 1, 'body': dict(struct, second=1)}, {'ver': 1, 'body': struct, 'extra': 1}, {'ver': 1, 'head': {'tok': 't'}}, [], [1], 'x', 5, None]
+                    for i, e in enumerate(envs):
+                        process(R, T, _json.dumps(e).encode(), drivers[i % len(drivers)], 'mut:jsonrpc_envelope', repro)
+                    R.count('jsonrpc_envelopes', len(envs))
             elif kind != 'httprpc':
                 for i, (cls, m) in enumerate(xml_mutants(rng, struct, 40 if tier == 'quick' else 300)):
                     process(R, T, m, drivers[i % len(drivers)], cls, repro)
